@@ -1,7 +1,7 @@
 """Oracle self-tests; a failure makes a check INCONCLUSIVE, never a violation."""
 import importlib
 
-ALL = ("wcag", "csscolor", "cielab", "oklab", "ciede2000", "htmldom")
+ALL = ("wcag", "csscolor", "cielab", "oklab", "ciede2000", "htmldom", "cssmodel")
 
 
 def run(names=None):
